@@ -306,7 +306,7 @@ impl StdHdr {
     }
     /// PLUSPTYPE header with UFEP=001 and a custom format (w multiple of 4, h multiple of 4).
     pub fn custom(w: u16, h: u16, inter: bool, tr: u8, q: u8) -> StdHdr {
-        assert!(w % 4 == 0 && h % 4 == 0 && w >= 4 && h >= 4);
+        assert!(w % 4 == 0 && h % 4 == 0 && w >= 4 && h >= 4 && w <= 2048 && h <= 2044, "size not representable in CPFMT");
         StdHdr {
             tr,
             hi2: 2,
